@@ -27,6 +27,14 @@ type fragPipe struct {
 	reads     int64
 	delivered int64
 	starves   int64
+	written   int64
+}
+
+// writtenBytes returns the number of bytes written into the pipe so far.
+func (p *fragPipe) writtenBytes() int64 {
+	p.mu.Lock()
+	defer p.mu.Unlock()
+	return p.written
 }
 
 // newFragPipe creates a pipe. If mu is nil the pipe owns a private mutex;
@@ -130,6 +138,7 @@ func (p *fragPipe) Write(b []byte) (int, error) {
 		return 0, nil
 	}
 	p.buf = append(p.buf, b...)
+	p.written += int64(len(b))
 	p.waiting = false // the blocked reader (if any) now has data to deliver
 	p.cond.Broadcast()
 	return len(b), nil
